@@ -20,7 +20,7 @@ SPEC = dict(
     props_module="Refinery.Props.C07",
     gen_module="Refinery.Gen.Deadline",
     quick=dict(cases=600, len=60, shards=4),
-    thorough=dict(cases=48000, len=90, shards=16),
+    thorough=dict(cases=16000, len=90, shards=16),
     nontrivial=nontrivial,
     rule="cases = the `deadline` component's random schedules (see C03) with ~9% direct sendTracesEarly(bytes) calls, bytes drawn from "
          "{0, 1, size of one trace -1/0/+1, half / all / all+1 / 10x the buffered data size} and ~1% real checkAlloc calls with MaxAlloc "
